@@ -664,7 +664,9 @@ func (h *c13Hist) compact(parts []int) {
 
 // checkAll compares every mapping the model knows with the real file.
 func (h *c13Hist) checkAll(step string) {
-	feat := func(api string) map[string]string { return map[string]string{"api": api, "after": strings.SplitN(step, " ", 2)[0]} }
+	feat := func(api string) map[string]string {
+		return map[string]string{"api": api, "after": strings.SplitN(step, " ", 2)[0]}
+	}
 	for ks, k := range h.m.KeyOf {
 		id, live := h.m.Live[ks]
 		got := h.sf.SeriesID([]byte(k.Name), k.tags(), nil)
